@@ -480,7 +480,8 @@ pub fn pending_scale_case(n: usize) -> Result<u64, Violation> {
     if snap.pending.len() != admitted {
         return Err(bad("pending-count", format!("{} challenges were issued, {} half-open sessions exist", admitted, snap.pending.len())));
     }
-    // a half-open client whose challenge was lost retransmits its request: it is answered again
+    // a half-open client whose challenge was lost retransmits its request (a send interval later): it is answered again
+    server.update(dt);
     for (k, _) in held.iter() {
         let mut c2 = new_client(Duration::ZERO, &mk(*k, 10));
         let (req, _) = nc::cli_update(&mut c2, dt)?.ok_or_else(|| bad("client-silent", format!("client {}", k)))?;
